@@ -47,6 +47,19 @@ class EventHeap:
         # Set via _active_sim_context so Event/ProcessContinuation use it.
         self._event_counter: count = count()
 
+    def continue_counter_after_pending(self) -> None:
+        """Make run-time sort indices continue above every pending event.
+
+        Events created before the run draw their sort index from the global
+        counter, events created during it from this heap's counter.  Starting
+        the latter at zero would let an event created during the run overtake
+        same-instant events that were created (and scheduled) earlier, breaking
+        the FIFO-by-creation tie-break.
+        """
+        if self._heap:
+            floor = max(event._sort_index for event in self._heap) + 1
+            self._event_counter = count(max(floor, next(self._event_counter)))
+
     def set_current_time(self, time: Instant) -> None:
         """Update the current simulation time for accurate trace timestamps."""
         self._current_time = time
